@@ -30,7 +30,7 @@ Fixpoint norm (e : expr) : expr :=
   | EAtTz l r => EAtTz (norm l) (norm r)
   | ECast x t => ECast (norm x) t
   | ELike kd n a x p esc =>
-      ELike kd n a (norm x) (norm p) (match esc with Some (_, c) => Some (true, c) | None => None end)
+      ELike kd n a (norm x) (norm p) (match esc with Some (false, c) => Some (true, 100000 + c) | other => other end)
   | EBetween n x lo hi => EBetween n (norm x) (norm lo) (norm hi)
   | EInList n x l => EInList n (norm x) (map norm l)
   | EInUnnest n x a => EInUnnest n (norm x) (norm a)
@@ -87,7 +87,10 @@ Fixpoint undec (acc : N) (s : str) : option N :=
 
 (** atoms are spelled [x<n>] (identifiers) and ['s<n>'] (string literals) *)
 Definition ident_text (n : N) : str := 120%N :: dec n.
-Definition str_payload (n : N) : str := 115%N :: dec n.
+(** string payloads are [s<n>]; ids from 100000 denote the payload [x<n-100000>] (an ESCAPE word
+    re-printed as a string) *)
+Definition str_payload (n : N) : str :=
+  if (100000 <=? n)%N then ident_text (n - 100000) else 115%N :: dec n.
 Definition type_text (n : N) : str :=
   if n =? 1 then s2l "INT" else if n =? 2 then s2l "TEXT" else if n =? 3 then s2l "BOOLEAN" else s2l "DATE".
 
@@ -218,6 +221,8 @@ Definition view_tok (t : Lexer.tok) : list tok :=
   | Lexer.TWord v q => [view_word v q]
   | Lexer.TStr Lexer.KSingle (115%N :: (_ :: _) as ds) =>
       [match undec 0 ds with Some n => TAtom true n | None => TOther end]
+  | Lexer.TStr Lexer.KSingle (120%N :: (_ :: _) as ds) =>
+      [match undec 0 ds with Some n => TAtom true (100000 + n) | None => TOther end]
   | Lexer.TCustom _ => [TOp 86]
   | Lexer.TFix f => [view_fix f]
   | _ => [TOther]
